@@ -282,6 +282,14 @@ func checkDataShape(p *Prog, r *Report, f *ssa.Function) {
 					if c, ok := o.(*ssa.Call); ok && builtinName(c.Common()) == "append" {
 						good = true
 					}
+					// or a list of the ID list's length filled by index in the emitting loop
+					if ms, ok := o.(*ssa.MakeSlice); ok {
+						for _, ld := range findLoops(f) {
+							if ld.kind == "slice" && indexFilled(ld) == ms {
+								good = true
+							}
+						}
+					}
 				}
 			}
 			r.decide(good, "C04.data-shape", "MarshalResource:to-many-data", p.pos(mu.Pos()), "data is the list built by appending one identifier per ID", "the to-many data member is not the list of identifiers built from the ID list")
